@@ -253,7 +253,7 @@ func init() {
 		ID: "C01", Level: "exploration",
 		Technique: "exhaustive small-scope enumeration of (layout, cached subset, table, key) against a brute-force containment oracle, plus end-to-end routing observed by a simulated cluster under the controlled scheduler",
 		Rule: "layer 1: every layout of table t with <=3 split points over all strings of length <=2 over {00,'+',',','-','a',ff} (thorough: <=4 split points over the 5-symbol alphabet), every subset of its regions cached, six neighbouring tables (prefix names, namespaced) cached or not, every key of length <=3 plus keys around the 32 KiB search-key truncation; real getRegionFromCache vs containment oracle. Non-trivial = at least one region of t cached. Table-name families include names that differ from a namespaced one only in the byte at the separator's position (ns:t / ns_t / ns.t / nsxt).",
-		Assumptions: []string{"region start keys short enough for a legal meta row (HBase MAX_ROW_LENGTH)", "layer 2 (wire) uses the simulated cluster as HBase model"},
+		Assumptions: []string{"tier W also: a table of four regions with every subset cached when two neighbours merge or one region splits, then one key per old region and the boundary keys in both orders, twice: every request succeeds, the second round is neither misrouted nor looked up again", "region start keys short enough for a legal meta row (HBase MAX_ROW_LENGTH)", "layer 2 (wire) uses the simulated cluster as HBase model"},
 		Quick:       60 * time.Second, Thorough: 10 * time.Minute,
 		Direct: c01Direct,
 		Units:  c01WUnits,
